@@ -17,6 +17,13 @@ Theorem C16_default_cfg_ok : forall names,
   forallb (digit_char (default_cfg names)) (expand d_ranges) = true.
 Proof. exact (fun names => conj (default_quotes_ok names) (default_digits_ok names)). Qed.
 
+(* the regexes of the string, number and keyword rules and of the escape decoder are
+   the ones the model was written for *)
+Theorem C16_regexes_pinned :
+  rule_sources = pinned_rule_sources /\ escape_source = pinned_escape_source /\
+  lexer_flags = flag_verbose_unicode /\ escape_flags = flag_verbose_unicode.
+Proof. repeat split; reflexivity. Qed.
+
 (* EVERY string s: the lexer reads spell s as exactly one QUOTED_STRING token
    spanning the whole text, with value s *)
 Theorem C16_sq_roundtrip : forall cfg, quote_ok cfg 39 = true -> forall s,
@@ -109,6 +116,9 @@ Theorem C16_number_shape : forall cfg prev s k n v, m_number cfg prev s = MTok k
    (memz 46 (firstn n s) = false /\ v = VInt (dec_value cfg 0 (firstn n s)))).
 Proof. exact m_number_shape. Qed.
 
+Lemma C16_wf : forall names, cfg_wfb (default_cfg names) = true.
+Proof. intro names. vm_compute. reflexivity. Qed.
+
 (* an identifier-shaped word is one token whose type and value come from
    t_KEYWORD_STRING's tables; in the current tree true/false/null are the constants,
    the operator words are operator tokens, any other word is its own text; a word
@@ -126,14 +136,17 @@ Theorem C16_keywords :
      kw_action (default_cfg names) W_true 4 = MTok [84; 82; 85; 69] 4 VTrue /\
      kw_action (default_cfg names) W_false 5 = MTok [70; 65; 76; 83; 69] 5 VFalse /\
      kw_action (default_cfg names) W_null 4 = MTok [78; 85; 76; 76] 4 VNull /\
-     kw_action (default_cfg names) W_and 3 = MTok [79; 80; 95; 83] 3 (VText W_and) /\
+     (forall w name, assoc w (op_table (default_cfg names)) = Some name ->
+        kw_action (default_cfg names) w (length w) = MTok name (length w) (VText w)) /\
+     assoc W_and (op_table (default_cfg names)) <> None /\
      (forall w, assoc (A:=text) w operator_table = None -> assoc (A:=text) w keyword_table = None ->
         kw_action (default_cfg names) w (length w) = MTok K_KEYWORD (length w) (VText w))) /\
   (forall names w, forallb (in_ranges w_ranges) w = true ->
      lex (default_cfg names) (95 :: 95 :: w) = ([], EndLexErr 0)).
 Proof.
   split; [exact keyword_literal|]. split; [|exact dunder_rejected].
-  intro names. repeat split; try reflexivity.
+  intro names. split; [reflexivity|]. split; [reflexivity|]. split; [reflexivity|].
+  split; [exact (fun w name H => kw_action_operator _ w name _ (C16_wf names) H)|]. split; [discriminate|].
   intros w H1 H2. unfold kw_action. change (op_table (default_cfg names)) with operator_table. rewrite H1.
   change (keywords (default_cfg names)) with keyword_table. rewrite H2. reflexivity.
 Qed.
